@@ -423,6 +423,8 @@ def run(chk: Check):
     rule_u1(chk)
     rule_u2(chk)
     rule_u3(chk, ix)
+    from .inventory import rule_walk_writes
+    rule_walk_writes(chk, ix, "S6-singleton-write")
     from .c04 import rule_s6
     rule_s6(chk)
     rule_u5(chk)
